@@ -1,0 +1,32 @@
+//go:build verif
+
+package index
+
+// Verification exports for property C09 (name -> id assignment). Nothing here changes behaviour:
+// the functions return the step lists of the two Flush methods, in source order, so that the
+// harness can stop a flush after any prefix (crash points inside a metadata / index flush).
+// The extractor (harness/internal/extract/facts_c09.go) re-reads both this file and the Flush
+// bodies on every run and the Lean side checks that the two orders are the same.
+
+// VerifMetaFlushSteps returns the steps of (*metricMetaDatabase).Flush in source order.
+func VerifMetaFlushSteps(db MetricMetaDatabase) []func() error {
+	mm := db.(*metricMetaDatabase)
+	return []func() error{
+		mm.sequence.Sync,
+		mm.ns.Flush,
+		mm.metric.Flush,
+		mm.schemaStore.Flush,
+		mm.tagValue.Flush,
+	}
+}
+
+// VerifIndexFlushSteps returns the steps of (*metricIndexDatabase).Flush in source order.
+func VerifIndexFlushSteps(db MetricIndexDatabase) []func() error {
+	index := db.(*metricIndexDatabase)
+	return []func() error{
+		index.metricInverted.flush,
+		index.forward.flush,
+		index.inverted.flush,
+		index.series.Flush,
+	}
+}
